@@ -159,6 +159,14 @@ def k_merge(run, case):
                       (k, [a.size for a in arrs]), key="merge:not-concatenated")
 
 
+def is_number(cell):
+    try:
+        float(cell)
+        return True
+    except (TypeError, ValueError):
+        return False
+
+
 def parse_csv(path, transposed=True):
     rows = list(csv.reader(io.StringIO(open(path, encoding="utf-8").read())))
     if not transposed:
@@ -191,8 +199,9 @@ def res_cli(run, case, rng, work):
     zero_keys = [STAT_KEYS[rng.integers(len(STAT_KEYS))]] if rng.random() < .2 else []
     name_class = ["plain", "plain", "plain", "plain", "brackets", "odd"][rng.integers(6)]
     holes_in = int(rng.integers(n)) if rng.random() < .15 else -1
+    collide = bool(rng.random() < .12)
     for i in range(n):
-        if rng.random() < .25 and not zero_keys:
+        if rng.random() < .25 and not zero_keys and not collide:
             # a real evo_ape archive
             sub = os.path.join(work, "run%d" % i)
             os.makedirs(sub)
@@ -212,6 +221,10 @@ def res_cli(run, case, rng, work):
             r = make_result(rng, STAT_KEYS, ["error_array"], lengths, int(rng.integers(2**31)), name)
             for zk in zero_keys:
                 r.stats[zk] = 0.0
+            if collide:
+                # a statistic named like one of the stored arrays (the two live in different sections)
+                r.stats["distances"] = float(rng.normal() * 10)
+                r.np_arrays["distances"] = np.cumsum(np.abs(rng.normal(size=lengths["error_array"])))
             if i == holes_in and not merge:
                 r.stats.pop(STAT_KEYS[rng.integers(len(STAT_KEYS))])  # an older file without that statistic
             p = os.path.join(work, "gen%d.zip" % i)
@@ -294,7 +307,7 @@ def res_cli(run, case, rng, work):
             want = math.fsum(vals) / n
             cell = rows[0].get(k)
             run.counters["--merge cell == mean of the stored statistics"] += 1
-            if cell in (None, "") or not abs(float(cell) - want) <= 4 * n * float(np.spacing(max(map(abs, vals)) + abs(want))):
+            if cell in (None, "") or not is_number(cell) or not abs(float(cell) - want) <= 4 * n * float(np.spacing(max(map(abs, vals)) + abs(want))):
                 run.violation("res:merge-cell", "--merge: %s cell %r but the mean of the stored values is %r" %
                               (k, cell, want), case, argv=argv)
                 return
@@ -309,7 +322,7 @@ def res_cli(run, case, rng, work):
         for k, v in z["stats"].items():
             cell = rows[0].get(k)
             run.counters["table cell == statistic stored in that file"] += 1
-            if cell in (None, "") or float(cell) != float(v):
+            if cell in (None, "") or not is_number(cell) or float(cell) != float(v):
                 run.violation("res:cell", "row %r column %s holds %r but the file stores %r" %
                               (label, k, cell, v), case, argv=argv)
                 return
